@@ -17,7 +17,10 @@ ID = "C12"
 TITLE = "Deduplication replaces only repeated points and gives up only after its passes"
 
 # rows share coordinates on purpose: comparing only one column would conflate them
-ROWS = {1: [[0.1], [0.2], [0.3], [0.4]], 2: [[0.0, 0.0], [0.0, 1.0], [1.0, 0.0], [1.0, 1.0]]}
+# universe 3: large-scale rows, pairwise distinct but close in relative terms (a tolerance comparison would conflate them)
+ROWS = {1: [[0.1], [0.2], [0.3], [0.4]], 2: [[0.0, 0.0], [0.0, 1.0], [1.0, 0.0], [1.0, 1.0]],
+        3: [[250000.0, 3.0], [250001.0, 3.0], [250002.0, 3.0], [250000.0, 3.0000001]]}
+NCOLS = {1: 1, 2: 2, 3: 2}
 HISTORIES = {"empty": [], "h1": [0], "h1h2": [0, 1], "h1h1h2": [0, 0, 1]}
 
 
@@ -36,7 +39,7 @@ def _make_sampler(batch_size, passes):
                 raise NeedMore(int(batch_size))
             rows = self.script[self.pos:self.pos + batch_size]
             self.pos += batch_size
-            return np.array([self.rows[s] for s in rows], dtype=float).reshape(batch_size, self.cols)
+            return np.array([self.rows[s] for s in rows], dtype=float).reshape(batch_size, NCOLS[self.cols])
 
     s = Scripted(batch_size=batch_size, random_state=0, max_deduplication_passes=passes)
     return s
@@ -72,7 +75,7 @@ def impl_run(sampler, script, hist, cols):
     rows = ROWS[cols]
     sampler.rows, sampler.cols = rows, cols
     sampler.script, sampler.pos, sampler.requests = list(script), 0, []
-    existing = np.array([rows[h] for h in hist], dtype=float).reshape(len(hist), cols)
+    existing = np.array([rows[h] for h in hist], dtype=float).reshape(len(hist), NCOLS[cols])
     losses = np.zeros(len(hist))
     before = existing.copy()
     try:
@@ -98,8 +101,8 @@ def judge(script, hist, B, P, cols, impl, ref):
     rows = ROWS[cols]
     if mod:
         v.append(("history-modified", "sample() modified existing_points"))
-    if out.shape != (B, cols):
-        v.append(("shape", f"returned shape {out.shape}, expected {(B, cols)}"))
+    if out.shape != (B, NCOLS[cols]):
+        v.append(("shape", f"returned shape {out.shape}, expected {(B, NCOLS[cols])}"))
         return v
     if ireq != rreq:
         v.append(("requested-sizes", f"implementation asked for {ireq}, reference for {rreq}"))
@@ -192,7 +195,7 @@ def main(ctx):
     # VERIF_SEED only rotates which history name is enumerated first (order), never what is covered
     hnames = list(HISTORIES)
     hnames = hnames[ctx.seed % len(hnames):] + hnames[:ctx.seed % len(hnames)]
-    for cols in (1, 2):
+    for cols in (1, 2, 3):
         for hname in hnames:
             for B, Ps in budget.items():
                 for P in Ps:
@@ -203,7 +206,7 @@ def main(ctx):
         for first in itertools.product(range(4), repeat=3):
             cells.append({"cols": 1, "hist": "h1h2", "B": 3, "P": 3, "first": list(first)})
     cells.sort(key=lambda c: -(4 ** (c["B"] * c["P"])))
-    ctx.bounds = {"universe": "h1,h2 (history), f1,f2 (fresh); rows as 1 and 2 columns", "histories": list(HISTORIES),
+    ctx.bounds = {"universe": "h1,h2 (history), f1,f2 (fresh); rows as 1 column, 2 columns sharing coordinates, 2 columns at scale 2.5e5 (distinct but relatively close)", "histories": list(HISTORIES),
                   "batch_size->pass budgets": {str(k): [min(v), max(v)] for k, v in budget.items()}, "cells": len(cells)}
     ctx.rule = ("systematic exploration of generator answers: every execution that asks for k more rows is extended by all 4^k tuples; "
                 "evaluations = complete executions (leaves), each standing for all scripts that extend its consumed prefix; "
